@@ -780,11 +780,22 @@ pub fn ctor_turn() -> u32 {
 }
 /// Key<32> from the same 32 bytes through one of its four public constructors
 pub fn key32(b: [u8; 32]) -> Key<32> {
-    match ctor_turn() % 4 {
+    match ctor_turn() % 7 {
         0 => Key::<32>::from(b),
         1 => Key::<32>::from(&b),
         2 => Key::<32>::from(&b[..]),
-        _ => Key::<32>::try_from(crate::util::hex(&b).as_str()).unwrap_or_else(|_| Key::<32>::from(b)),
+        3 => Key::<32>::try_from(crate::util::hex(&b).as_str()).unwrap_or_else(|_| Key::<32>::from(b)),
+        4 => Key::<32>::from(b).clone(),
+        5 => {
+            // through Deref / AsRef of another key object
+            let k = Key::<32>::from(b);
+            let arr: &[u8; 32] = &k;
+            Key::<32>::from(arr)
+        }
+        _ => {
+            let k = Key::<32>::from(b);
+            Key::<32>::from(k.as_ref())
+        }
     }
 }
 
